@@ -832,6 +832,14 @@ func (p *BinaryProtocol) ReadStringWithDesc(desc *TypeDescriptor, buf *[]byte, b
 //     and if asJson is true the entiry value will be wrapped by '{' (start) and '}' (end).
 //   - STRING (including key) will be wrapped by '"' if asJson is true.
 func (p *BinaryProtocol) EncodeText(desc *TypeDescriptor, buf *[]byte, byteAsUint8 bool, disallowUnknown bool, base64Binary bool, useFieldName bool, asJson bool) error {
+	return p.encodeText(desc, buf, byteAsUint8, disallowUnknown, base64Binary, useFieldName, asJson, MaxSkipDepth)
+}
+
+// encodeText is EncodeText with a limit on the nesting depth (the one of Skip)
+func (p *BinaryProtocol) encodeText(desc *TypeDescriptor, buf *[]byte, byteAsUint8 bool, disallowUnknown bool, base64Binary bool, useFieldName bool, asJson bool, maxDepth int) error {
+	if maxDepth <= 0 && desc.Type().IsComplex() {
+		return errExceedDepthLimit
+	}
 	switch desc.Type() {
 	case BOOL:
 		b, err := p.ReadBool()
@@ -916,7 +924,7 @@ func (p *BinaryProtocol) EncodeText(desc *TypeDescriptor, buf *[]byte, byteAsUin
 			*buf = append(*buf, '[')
 		}
 		for i := 0; i < size; i++ {
-			if e := p.EncodeText(et, buf, byteAsUint8, disallowUnknown, base64Binary, useFieldName, asJson); e != nil {
+			if e := p.encodeText(et, buf, byteAsUint8, disallowUnknown, base64Binary, useFieldName, asJson, maxDepth-1); e != nil {
 				return e
 			}
 			if i != size-1 {
@@ -940,11 +948,11 @@ func (p *BinaryProtocol) EncodeText(desc *TypeDescriptor, buf *[]byte, byteAsUin
 			*buf = append(*buf, '{')
 		}
 		for i := 0; i < size; i++ {
-			if e := p.EncodeText(desc.Key(), buf, byteAsUint8, disallowUnknown, base64Binary, useFieldName, asJson); e != nil {
+			if e := p.encodeText(desc.Key(), buf, byteAsUint8, disallowUnknown, base64Binary, useFieldName, asJson, maxDepth-1); e != nil {
 				return e
 			}
 			*buf = append(*buf, ':')
-			if e := p.EncodeText(desc.Elem(), buf, byteAsUint8, disallowUnknown, base64Binary, useFieldName, asJson); e != nil {
+			if e := p.encodeText(desc.Elem(), buf, byteAsUint8, disallowUnknown, base64Binary, useFieldName, asJson, maxDepth-1); e != nil {
 				return e
 			}
 			if i != size-1 {
@@ -991,7 +999,7 @@ func (p *BinaryProtocol) EncodeText(desc *TypeDescriptor, buf *[]byte, byteAsUin
 				*buf = append(*buf, field.Alias()...)
 			}
 			*buf = append(*buf, ':')
-			if err := p.EncodeText(field.Type(), buf, byteAsUint8, disallowUnknown, base64Binary, useFieldName, asJson); err != nil {
+			if err := p.encodeText(field.Type(), buf, byteAsUint8, disallowUnknown, base64Binary, useFieldName, asJson, maxDepth-1); err != nil {
 				return err
 			}
 		}
@@ -1010,6 +1018,14 @@ func (p *BinaryProtocol) EncodeText(desc *TypeDescriptor, buf *[]byte, byteAsUin
 //     or map[interface{}]interface (depends on its key type)
 //   - STRUCT will be converted to map[FieldID]interface{}
 func (p *BinaryProtocol) ReadAnyWithDesc(desc *TypeDescriptor, byteAsUint8 bool, copyString bool, disallowUnknonw bool, useFieldName bool) (interface{}, error) {
+	return p.readAnyWithDesc(desc, byteAsUint8, copyString, disallowUnknonw, useFieldName, MaxSkipDepth)
+}
+
+// readAnyWithDesc is ReadAnyWithDesc with a limit on the nesting depth (the one of Skip)
+func (p *BinaryProtocol) readAnyWithDesc(desc *TypeDescriptor, byteAsUint8 bool, copyString bool, disallowUnknonw bool, useFieldName bool, maxDepth int) (interface{}, error) {
+	if maxDepth <= 0 && desc.Type().IsComplex() {
+		return nil, errExceedDepthLimit
+	}
 	switch desc.Type() {
 	case STOP:
 		return nil, nil
@@ -1049,7 +1065,7 @@ func (p *BinaryProtocol) ReadAnyWithDesc(desc *TypeDescriptor, byteAsUint8 bool,
 		}
 		ret := make([]interface{}, 0, p.sizeHint(size))
 		for i := 0; i < size; i++ {
-			v, e := p.ReadAnyWithDesc(et, byteAsUint8, copyString, disallowUnknonw, useFieldName)
+			v, e := p.readAnyWithDesc(et, byteAsUint8, copyString, disallowUnknonw, useFieldName, maxDepth-1)
 			if e != nil {
 				return nil, e
 			}
@@ -1073,7 +1089,7 @@ func (p *BinaryProtocol) ReadAnyWithDesc(desc *TypeDescriptor, byteAsUint8 bool,
 				if e != nil {
 					return nil, e
 				}
-				vv, e := p.ReadAnyWithDesc(et, byteAsUint8, copyString, disallowUnknonw, useFieldName)
+				vv, e := p.readAnyWithDesc(et, byteAsUint8, copyString, disallowUnknonw, useFieldName, maxDepth-1)
 				if e != nil {
 					return nil, e
 				}
@@ -1087,7 +1103,7 @@ func (p *BinaryProtocol) ReadAnyWithDesc(desc *TypeDescriptor, byteAsUint8 bool,
 				if e != nil {
 					return nil, e
 				}
-				vv, e := p.ReadAnyWithDesc(et, byteAsUint8, copyString, disallowUnknonw, useFieldName)
+				vv, e := p.readAnyWithDesc(et, byteAsUint8, copyString, disallowUnknonw, useFieldName, maxDepth-1)
 				if e != nil {
 					return nil, e
 				}
@@ -1097,11 +1113,11 @@ func (p *BinaryProtocol) ReadAnyWithDesc(desc *TypeDescriptor, byteAsUint8 bool,
 		} else {
 			m := make(map[interface{}]interface{})
 			for i := 0; i < size; i++ {
-				kv, e := p.ReadAnyWithDesc(desc.Key(), byteAsUint8, copyString, disallowUnknonw, useFieldName)
+				kv, e := p.readAnyWithDesc(desc.Key(), byteAsUint8, copyString, disallowUnknonw, useFieldName, maxDepth-1)
 				if e != nil {
 					return nil, e
 				}
-				vv, e := p.ReadAnyWithDesc(et, byteAsUint8, copyString, disallowUnknonw, useFieldName)
+				vv, e := p.readAnyWithDesc(et, byteAsUint8, copyString, disallowUnknonw, useFieldName, maxDepth-1)
 				if e != nil {
 					return nil, e
 				}
@@ -1154,7 +1170,7 @@ func (p *BinaryProtocol) ReadAnyWithDesc(desc *TypeDescriptor, byteAsUint8 bool,
 				}
 				continue
 			}
-			vv, err := p.ReadAnyWithDesc(next.Type(), byteAsUint8, copyString, disallowUnknonw, useFieldName)
+			vv, err := p.readAnyWithDesc(next.Type(), byteAsUint8, copyString, disallowUnknonw, useFieldName, maxDepth-1)
 			if err != nil {
 				return nil, err
 			}
@@ -1358,6 +1374,14 @@ func GoType2ThriftType(val interface{}) (Type, error) {
 //   - For MAP type, the output key type could be string, int or interface{}, depends on the input key's thrift type.
 //   - for STRUCT type, the return type is map[thrift.FieldID]interface{}.
 func (p *BinaryProtocol) ReadAny(typ Type, strAsBinary bool, byteAsInt8 bool) (interface{}, error) {
+	return p.readAny(typ, strAsBinary, byteAsInt8, MaxSkipDepth)
+}
+
+// readAny is ReadAny with a limit on the nesting depth (the one of Skip)
+func (p *BinaryProtocol) readAny(typ Type, strAsBinary bool, byteAsInt8 bool, maxDepth int) (interface{}, error) {
+	if maxDepth <= 0 && typ.IsComplex() {
+		return nil, errExceedDepthLimit
+	}
 	switch typ {
 	case BOOL:
 		return p.ReadBool()
@@ -1387,7 +1411,7 @@ func (p *BinaryProtocol) ReadAny(typ Type, strAsBinary bool, byteAsInt8 bool) (i
 		}
 		ret := make([]interface{}, 0, p.sizeHint(size))
 		for i := 0; i < size; i++ {
-			v, e := p.ReadAny(elemType, strAsBinary, byteAsInt8)
+			v, e := p.readAny(elemType, strAsBinary, byteAsInt8, maxDepth-1)
 			if e != nil {
 				return nil, e
 			}
@@ -1406,7 +1430,7 @@ func (p *BinaryProtocol) ReadAny(typ Type, strAsBinary bool, byteAsInt8 bool) (i
 				if e != nil {
 					return nil, e
 				}
-				v, e := p.ReadAny(valueType, strAsBinary, byteAsInt8)
+				v, e := p.readAny(valueType, strAsBinary, byteAsInt8, maxDepth-1)
 				if e != nil {
 					return nil, e
 				}
@@ -1420,7 +1444,7 @@ func (p *BinaryProtocol) ReadAny(typ Type, strAsBinary bool, byteAsInt8 bool) (i
 				if e != nil {
 					return nil, e
 				}
-				v, e := p.ReadAny(valueType, strAsBinary, byteAsInt8)
+				v, e := p.readAny(valueType, strAsBinary, byteAsInt8, maxDepth-1)
 				if e != nil {
 					return nil, e
 				}
@@ -1430,11 +1454,11 @@ func (p *BinaryProtocol) ReadAny(typ Type, strAsBinary bool, byteAsInt8 bool) (i
 		} else {
 			m := make(map[interface{}]interface{}, p.sizeHint(size))
 			for i := 0; i < size; i++ {
-				k, e := p.ReadAny(keyType, strAsBinary, byteAsInt8)
+				k, e := p.readAny(keyType, strAsBinary, byteAsInt8, maxDepth-1)
 				if e != nil {
 					return nil, e
 				}
-				v, e := p.ReadAny(valueType, strAsBinary, byteAsInt8)
+				v, e := p.readAny(valueType, strAsBinary, byteAsInt8, maxDepth-1)
 				if e != nil {
 					return nil, e
 				}
@@ -1465,7 +1489,7 @@ func (p *BinaryProtocol) ReadAny(typ Type, strAsBinary bool, byteAsInt8 bool) (i
 			if typ == STOP {
 				return ret, nil
 			}
-			v, e := p.ReadAny(typ, strAsBinary, byteAsInt8)
+			v, e := p.readAny(typ, strAsBinary, byteAsInt8, maxDepth-1)
 			if e != nil {
 				return nil, e
 			}
